@@ -201,6 +201,24 @@ impl Inflights {
     }
 }
 
+#[cfg(tikv_raft_rs_verif)]
+impl Inflights {
+    /// Returns `(start, count, cap, incoming_cap, window contents in FIFO order)`
+    /// (verification hook, no behaviour).
+    pub fn verif_view(&self) -> (usize, usize, usize, Option<usize>, Vec<u64>) {
+        let mut w = Vec::with_capacity(self.count);
+        let mut idx = self.start;
+        for _ in 0..self.count {
+            w.push(self.buffer.get(idx).copied().unwrap_or(u64::MAX));
+            idx += 1;
+            if idx >= self.cap {
+                idx -= self.cap;
+            }
+        }
+        (self.start, self.count, self.cap, self.incoming_cap, w)
+    }
+}
+
 #[cfg(test)]
 mod tests {
     use super::Inflights;
